@@ -32,7 +32,7 @@ PROPS = {
         explanation='Verbatim body of Package::verify_digests: Ok <==> every recorded digest equals the digest recomputed from ser(header) / payload (both directions), Err is DigestMismatchError unless the payload algorithm is unsupported, unsupported algorithm => Err, no panic obligations left; all packages and all corruption positions at once because hashes are uninterpreted.',
     ),
     'C04': dict(
-        level='proof', verus=['c01_parse', 'c03_digests', 'c02_verify_sig', 'c16_offsets', 'c07_payload', 'c07_iter'],
+        level='proof', verus=['c01_parse', 'c03_digests', 'c02_verify_sig', 'c16_offsets', 'c07_payload', 'c07_iter', 'c05_getters', 'c12_extract'],
         trusted_base=[A_TOOLS, A_EXTRACT, 'A-IO std Read/Take contracts; A-LEAF-LINK leaf contracts = Kani harness assertion sets; R17: every slicing expression is rewritten to a prelude function whose PRECONDITION is the no-panic condition, so each slice is a proof obligation'],
         assumptions=['claimed per function, not for the reader as a whole: NOT covered are the decompressors (zstd/xz FFI, flate2), the pgp packet parser behind signature_key_ids, the iterator-adapter accessor code of package.rs, and heap proportionality beyond the explicit allocation requests (Header::parse buffer via Take, reserve_exact bound, cpio name buffer)',
                      'Verus: absence of overflow / out-of-bounds / unwrap-on-None / debug_assert failure is an automatic obligation of every extracted body; Kani: the same plus pointer checks, bit-precise'],
